@@ -120,6 +120,21 @@ def run_cont(ctx, pt):
             ctx.eq('C04/keccak/%s' % key, got, ('ok', exp))
 
 
+def pts_long(tier):
+    return [(1600, 1027, 65736, True), (1600, 1531, 65537, False)] + ([(1600, 1088, 70000, False), (800, 129, 16500, True)] if tier == 'thorough' else [])
+
+
+def run_long(ctx, pt):
+    """messages longer than 64 KiB with rates that are not a multiple of 8 (sampled)"""
+    b, r, n, native = pt
+    M = expander(n, 17)
+    L = 8 * n - 3
+    exp = RK.keccak(b, r, M, L, 256, nist=not native)
+    ctx.eq('C04/keccak/long-message', ctx.attempt(lambda: mk(b, r, 256, native)(M, bitlen=L)), ('ok', exp))
+    exp = RK.keccak(b, r, M, 8 * n, 256, nist=not native)
+    ctx.eq('C04/keccak/long-message', ctx.attempt(lambda: mk(b, r, 256, native)(M)), ('ok', exp))
+
+
 def pts_fips(tier):
     pts = [('sha3', n, ln) for n in (224, 256, 384, 512) for ln in range(0, 2 * (1600 - 2 * n) // 8 + 2, 1 if tier == 'thorough' else 3)]
     pts += [('sha3', n, ln) for n in (224, 256, 384, 512) for ln in ((1600 - 2 * n) // 8 + k for k in (-2, -1, 0, 1))]
@@ -179,20 +194,43 @@ class DuplexSys(HSystem):
         return {'o': Keccak(b=self.b, r=self.r, len=self.r), 'ref': RK.Duplex(self.b, self.r), 'exp': None}
 
     def canon(self, o):
+        from mc.engine import canon as gcanon
+        return gcanon(o['o'])
+
+    def lanes(self, o):
         S = getattr(o['o'], '_S', None)
         return tuple(l.ival for l in S.lanes) if S is not None else None
 
     def events(self, o):
         r = self.r
-        return [(bl, ol) for bl in sorted({0, 1, r - 2, min(8, r - 2)}) for ol in (1, r)] + [('sponge', 5), ('sponge', r + 3)]
+        return [(bl, ol) for bl in sorted({0, 1, r - 2, min(8, r - 2)}) for ol in (1, r)] + [('sponge', 5), ('sponge', r + 3)] + \
+               [('sponge-rate', 5), ('sponge-rate', 13), ('set-duplexing', 1), ('set-duplexing', 0), ('set-outlen', 8), ('set-outlen', r)]
 
     def apply(self, o, ev):
         bl, ol = ev
+        if bl == 'set-duplexing':
+            o['o'].duplexing = bool(ol)
+            o['cfg'] = (bool(ol), o.get('cfg', (False, self.r))[1])
+            o['exp'] = None
+            return None
+        if bl == 'set-outlen':
+            o['o'].outlen = ol
+            o['cfg'] = (o.get('cfg', (False, self.r))[0], ol)
+            o['exp'] = None
+            return None
+        if bl == 'sponge-rate':
+            # a per-call rate (half the object's rate), under the attribute values set last
+            nat, d = o.get('cfg', (False, self.r))
+            rr = max(2, self.r // 2)
+            m = expander((ol + 7) // 8, 11)
+            o['exp'] = RK.keccak(self.b, rr, m, ol, d, nist=not nat)
+            return o['o'](m, bitlen=ol, r=rr)
         if bl == 'sponge':
             # a plain sponge call (NIST bit order, explicit bit length) between duplex calls: it must neither disturb
             # the duplex state nor be disturbed by it
+            nat, d = o.get('cfg', (False, self.r))
             m = expander((ol + 7) // 8, 9)
-            o['exp'] = RK.keccak(self.b, self.r, m, ol, self.r, nist=True)
+            o['exp'] = RK.keccak(self.b, self.r, m, ol, d, nist=not nat)
             return o['o'](m, bitlen=ol)
         m = expander((bl + 7) // 8, 5 + bl % 3)
         o['exp'] = o['ref'](RK.bits_native(m, bl), ol)
@@ -201,8 +239,10 @@ class DuplexSys(HSystem):
         return o['o'].duplex(m, bitlen=bl, outlen=ol)
 
     def judge(self, ctx, hist, ev, res, o):
-        ctx.eq('C04/duplex' if ev[0] != 'sponge' else 'C04/keccak/sponge-call-between-duplex-calls', res, ('ok', o['exp']))
-        ctx.eq('C04/duplex/state', self.canon(o) or (0,) * 25, tuple(o['ref'].S))
+        if ev[0] in ('set-duplexing', 'set-outlen'):
+            return
+        ctx.eq('C04/duplex' if not str(ev[0]).startswith('sponge') else 'C04/keccak/sponge-call-between-duplex-calls', res, ('ok', o['exp']))
+        ctx.eq('C04/duplex/state', self.lanes(o) or (0,) * 25, tuple(o['ref'].S))
 
 
 def systems(tier):
@@ -226,9 +266,11 @@ def subchecks():
         Sub('output-lengths', pts_out, run_out, engine='P', bound='d in {1,8,r-1,r,r+1,2r+3,3r} at L in {0,r-2,r+5} for the (b,r) above'),
         Sub('containers', pts_cont, run_cont, engine='P',
             bound='L in {0,1,5,8,13,r-1,r,r+3}: exact container, +2 trailing bytes, bitlen=0 with empty and non-empty container; both bit orders'),
+        Sub('long-messages', pts_long, run_long, engine='P', exhaustive=False, chunk=1,
+            bound='messages of 65736 / 65537 bytes (thorough also 70000, 16500) with rates 1027, 1531 (1088, 129), byte and bit lengths'),
         Sub('fips202', pts_fips, run_fips, engine='P',
             bound='SHA3-224/256/384/512 on every byte length 0..2 rate-blocks+1 (quick: every 3rd + the rate boundaries), SHAKE128/256 at 256 bits on every length (quick: every 5th) and 4 output lengths on 6 lengths vs hashlib; module singletons keccak_224..512 on 10 lengths'),
-        hsub('duplex', systems, 3, bound='Keccak(b,r) for (25,9),(200,40),(1600,1027),(1600,1088) (+3 in thorough): events duplex(m, bitlen in {0,1,8,r-2}, outlen in {1,r}) and two plain sponge calls with a bit length (NIST order); all sequences to depth 3 vs a reference duplex object; state = 25 lanes'),
+        hsub('duplex', systems, 3, bound='Keccak(b,r) for (25,9),(200,40),(1600,1027),(1600,1088) (+3 in thorough): events duplex(m, bitlen in {0,1,8,r-2}, outlen in {1,r}) two plain sponge calls with a bit length, two sponge calls with a per-call rate, and assignments to the duplexing / outlen attributes; all sequences to depth 3 vs a reference duplex object; state = 25 lanes'),
     ]
 
 
